@@ -93,3 +93,5 @@ def run(rep, tier):
     rep.rule("L-lifting-crop", "Textgrid.crop on a generic textgrid (interval tier / point tier plus an empty tier): per-tier result equals the tier-level crop, shared span and validate() True for strict/truncated")
     for shape in ([("interval", "I", 1), ("point", "E", 0)], [("interval", "E", 0), ("point", "P", 1)]):
         lifting(rep, shape, only="crop")
+    rep.rule("L-lifting-crop-ownspans", "same, on a textgrid whose tiers span only their own entries: the resulting textgrid has the span the operation defines")
+    lifting(rep, [("interval", "I", 1), ("point", "P", 1)], only="crop", own=True)
